@@ -21,6 +21,7 @@ import (
 	"context"
 	gosql "database/sql"
 	"database/sql/driver"
+	"fmt"
 
 	"seata.apache.org/seata-go/pkg/datasource/sql/exec"
 	"seata.apache.org/seata-go/pkg/datasource/sql/types"
@@ -160,11 +161,8 @@ func (c *ATConn) createOnceTxContext(ctx context.Context) bool {
 	return onceTx
 }
 
-func (c *ATConn) createNewTxOnExecIfNeed(ctx context.Context, f func() (types.ExecResult, error)) (types.ExecResult, error) {
-	var (
-		tx  driver.Tx
-		err error
-	)
+func (c *ATConn) createNewTxOnExecIfNeed(ctx context.Context, f func() (types.ExecResult, error)) (result types.ExecResult, err error) {
+	var tx driver.Tx
 
 	if c.txCtx.TransactionMode != types.Local && tm.IsGlobalTx(ctx) && c.autoCommit {
 		tx, err = c.BeginTx(ctx, driver.TxOptions{Isolation: driver.IsolationLevel(gosql.LevelDefault)})
@@ -182,6 +180,8 @@ func (c *ATConn) createNewTxOnExecIfNeed(ctx context.Context, f func() (types.Ex
 					log.Errorf("conn at rollback error:%v", rollbackErr)
 				}
 			}
+			// the statement did not complete: report it instead of returning a nil result and a nil error
+			result, err = nil, fmt.Errorf("at exec panic: %v", recoverErr)
 		}
 	}()
 
